@@ -15,6 +15,8 @@ class ZoneMixin:
         a = c.a
         a.t = c.int('t', 0, T_MAX - 1)
         a.z = c.int('z', -48, 56)
+        # the LOCAL year must fit the format (ISO9660 year byte: 1900..2155)
+        c.assume(a.t + 900 * a.z < T_MAX)
         if c.symbolic:
             c.p.ghost['tz_quarters'] = a.z
         a.local = c.localtime(a.t)
